@@ -115,6 +115,17 @@ Theorem streak_fifo_drains : forall c s lg lgs k fs pf q r,
 Proof. exact streak_run_l. Qed.
 Print Assumptions streak_fifo_drains.
 
+(* 'streak' on a dict / OrderedDict value: a logger run logs every queued (key, value) item exactly once IN
+   INSERTION ORDER (FIFO: popitem() takes the newest, appendleft() restores the order) and empties the mapping *)
+Theorem streak_mapping_fifo_drains : forall c s lg lgs k fs pf m r,
+  crule c = Streak -> clog c = lg :: lgs -> pfields s = (k :: fs) :: pf ->
+  lookup k (sdata (getsh (shares s) (snd (fst lg)))) = Some (VM m) ->
+  active s = true -> file s <> None -> (r = Run \/ r = Stop) ->
+  recs (file (step c s r)) = recs (file s) ++ map (fun kv => Rec (now s) [Some (VP (fst kv) (snd kv))]) m /\
+  lookup k (sdata (getsh (shares (step c s r)) (snd (fst lg)))) = Some (VM []).
+Proof. exact streak_mapping_run_l. Qed.
+Print Assumptions streak_mapping_fifo_drains.
+
 (* 'deck': a logger run logs every queued mapping exactly once in FIFO order (non-mappings are skipped,
    as coded) and empties the deck *)
 Theorem deck_fifo_drains : forall c s lg lgs fs pf r,
@@ -203,4 +214,11 @@ Example c22_deck_nonvacuous :
   recs (file (run {| crule := Deck; clog := [(0, O, [0; 1])] |} 0 wit_ss None
               [Start; Push O (DMap [(1, 5)]); Push O (DOther 3); Push O (DMap [(0, 6); (1, 7)]); Tick; Run; Stop])) =
   [Rec 1 [None; Some (VZ 5)]; Rec 1 [Some (VZ 6); Some (VZ 7)]].
+Proof. vm_compute. reflexivity. Qed.
+
+Example c22_streak_mapping_nonvacuous :
+  recs (file (run {| crule := Streak; clog := [(0, O, [0])] |} 0
+              [{| sdata := [(0, VM [])]; sstamp := Some 0; sdeck := [] |}] None
+              [Start; Put O 0 5 1; Put O 0 3 2; Put O 0 4 3; Tick; Run; Put O 0 9 4; Tick; Stop])) =
+  [Rec 1 [Some (VP 5 1)]; Rec 1 [Some (VP 3 2)]; Rec 1 [Some (VP 4 3)]; Rec 2 [Some (VP 9 4)]].
 Proof. vm_compute. reflexivity. Qed.
